@@ -99,6 +99,7 @@ def main():
   ap.add_argument('--shard', default='0/1')
   ap.add_argument('--runs', type=int, default=0)
   ap.add_argument('--indices', default='')
+  ap.add_argument('--range', default='', help='start:stop:step of run indices')
   ap.add_argument('--deadline', type=float, default=0.0)
   ap.add_argument('--replay', default='')
   ap.add_argument('--replay-dir', default=os.environ.get('VERIF_REPLAY_DIR') or os.path.join(VERIF, 'replays'))
@@ -135,6 +136,9 @@ def main():
   w, W = (int(x) for x in args.shard.split('/'))
   if args.indices:
     indices = [int(x) for x in args.indices.split(',')]
+  elif args.range:
+    a_, b_, c_ = (int(x) for x in args.range.split(':'))
+    indices = range(a_, b_, c_)
   else:
     indices = range(w, args.runs, W)
   shrunk_sigs = {}
@@ -144,6 +148,10 @@ def main():
       break
     seed = rng.derive_seed(args.base_seed, mod.PROP, i)
     t1 = time.time()
+    emit({'type': 'start', 'index': i})
+    if os.environ.get('VSIM_TEST_CRASH_AT') == str(i):   # self-test of the runner's crash handling
+      import signal
+      os.kill(os.getpid(), signal.SIGSEGV)
     try:
       scenario = mod.generate(seed, args.tier)
       out = run_one(mod, scenario, timeout_s)
